@@ -684,6 +684,38 @@ func poolTick(tier string) (p pool) {
 	return
 }
 
+// bfsAPIOrder: every local operation of the alphabet once, in every order and
+// interleaved with message delivery, from a given root (C14: no call order a
+// contract-respecting application can produce may trip an assertion).
+func bfsAPIOrder(name string, f feat, n int, voters []uint64, prefix []Event, menu []ConfSpec) *Scenario {
+	s := newSc("bfs/api-order/"+name+"/"+f.tag(), n, voters, f.cfg())
+	s.Prefix = prefix
+	s.budget(int(BTick), 1, int(BCampaign), 1, int(BPropose), 1, int(BRead), 1, int(BTransfer), 1, int(BForget), 1, int(BUnreach), 1, int(BCompact), 1, int(BSnapFail), 1)
+	if len(menu) > 0 {
+		s.ConfMenu = menu
+		s.Budget[BProposeConf] = 1
+	}
+	s.TransferPairs = [][2]uint8{{1, 2}, {2, 1}, {1, 1}}
+	s.UnreachPairs = [][2]uint8{{1, 2}}
+	s.PropBatch = []int{2}
+	s.MaxTerm = 3
+	return s
+}
+
+func poolAPI(tier string) (p pool) {
+	for _, f := range []feat{syncF, asyncF, pvcqF} {
+		p.bfs = append(p.bfs,
+			bfsAPIOrder("fresh", f, 3, ids(3), nil, nil),
+			bfsAPIOrder("leader", f, 3, ids(3), []Event{camp(1), prop(1)}, []ConfSpec{ccJointExpl, ccLeave}),
+			bfsAPIOrder("singleton", f, 1, ids(1), nil, nil),
+			bfsAPIOrder("joint", f, 4, ids(3), []Event{camp(1), conf(1, 0)}, []ConfSpec{ccJointExpl, ccLeave, ccAddLearner4}),
+			bfsAPIOrder("learner", f, 4, ids(3), []Event{camp(1), conf(1, 2), prop(1)}, []ConfSpec{ccJointExpl, ccLeave, ccAddLearner4}),
+			bfsAPIOrder("snapshot-pending", f, 3, ids(3), []Event{camp(1), prop(1), isolate(3), prop(1), prop(1), compact(1, 0), heal()}, nil),
+		)
+	}
+	return
+}
+
 func poolAll(tier string) (p pool) {
 	p.add(poolSafety(tier))
 	p.add(poolElection(tier))
@@ -764,6 +796,7 @@ func Jobs(prop, tier string) []*Job {
 		add(poolRead(tier), prop)
 	case "C14":
 		add(poolAll(tier), prop)
+		add(poolAPI(tier), prop)
 	case "C15":
 		// bounded convergence suffix from every state of the small BFS scenarios and
 		// from every end state of the scripted executions
@@ -805,6 +838,13 @@ func Jobs(prop, tier string) []*Job {
 			tickSc("prevote-rejoin", 3, pvcqF, scriptPrevoteRejoin(), k, int(BTick), 2, int(BDrop), 1),
 			tickSc("checkquorum-lease", 3, cqF, scriptCheckQuorumLease(), k, int(BTick), 2, int(BDrop), 1),
 		)
+		// many peers: beyond the on-stack fast paths for peer iteration and quorum arithmetic
+		p.dd = append(p.dd, ddScn("basic9", 9, ids(9), syncF, scriptBasic(), k, int(BDrop), 1),
+			func() *Scenario {
+				s := ddScn("basic5+4learners", 9, ids(5), asyncF, scriptBasic(), k, int(BDrop), 1)
+				s.Learners = []uint64{6, 7, 8, 9}
+				return s
+			}())
 		for _, sc := range p.bfs {
 			sc.MaxStates = capN
 		}
